@@ -390,6 +390,50 @@ pub fn run(tier: &str) -> Report {
         calls
     };
     rep.set("jumping_order_pass_calls", json!(order_calls));
+    // position-major pass: the main enumeration walks one orientation at a time, so two consecutive requests never
+    // share the position. Here, on one fresh thread per depth, every position (all s < 4^n for n <= 6 / 8, the
+    // structured positions beyond) is requested in all six orientations back to back, in every cyclic order and
+    // its reverse: centre in the triangle and `locate(centre) == s` for each.
+    let pm_calls = {
+        let nmax = if tier == "quick" { 6 } else { 8 };
+        let depths: Vec<usize> = (1..=29).collect();
+        let res: Vec<(u64, Vec<Viol>)> = depths
+            .par_iter()
+            .map(|&n| {
+                let tri2 = tri.clone();
+                let pos: Vec<u64> = if n <= nmax { (0..(1u64 << (2 * n))).collect() } else { deep_positions(n).into_iter().take(24).collect() };
+                std::thread::spawn(move || {
+                    let mut calls = 0u64;
+                    for &sp in &pos {
+                        for start in 0..6usize {
+                            for rev in [false, true] {
+                                for k in 0..6usize {
+                                    let oi = if rev { (start + 6 - k) % 6 } else { (start + k) % 6 };
+                                    calls += 1;
+                                    let (_, v) = check_position(sp, n, oi, &tri2);
+                                    if let Some(mut v) = v.into_iter().next() {
+                                        v.what = format!("{} [requested right after the same position in orientation {}]", v.what, ORIENTATIONS[if rev { (oi + 1) % 6 } else { (oi + 5) % 6 }].1);
+                                        v.case = json!({"kind": "position_major", "s": sp, "n": n});
+                                        return (calls, vec![v]);
+                                    }
+                                }
+                            }
+                        }
+                    }
+                    (calls, vec![])
+                })
+                .join()
+                .unwrap_or((0, vec![]))
+            })
+            .collect();
+        let mut calls = 0u64;
+        for (c, v) in res {
+            calls += c;
+            rep.sink.extend(v);
+        }
+        calls
+    };
+    rep.set("position_major_pass_calls", json!(pm_calls));
     // model: conformance, then exploration
     let cn = if tier == "quick" { 9 } else { 10 };
     let (agreed, unbound) = conformance(cn);
@@ -429,6 +473,26 @@ pub fn run(tier: &str) -> Report {
 }
 
 pub fn replay(case: &Value) -> Vec<Viol> {
+    if case["kind"] == "position_major" {
+        let (sp, n) = (case["s"].as_u64().unwrap_or(0), case["n"].as_u64().unwrap_or(1) as usize);
+        let tri = quintant_triangle();
+        return std::thread::spawn(move || {
+            for start in 0..6usize {
+                for rev in [false, true] {
+                    for k in 0..6usize {
+                        let oi = if rev { (start + 6 - k) % 6 } else { (start + k) % 6 };
+                        let (_, v) = check_position(sp, n, oi, &tri);
+                        if !v.is_empty() {
+                            return v;
+                        }
+                    }
+                }
+            }
+            vec![]
+        })
+        .join()
+        .unwrap_or_default();
+    }
     let tri = quintant_triangle();
     if case["kind"] == "position_after" {
         let name = case["orientation"].as_str().unwrap();
